@@ -277,6 +277,16 @@ class ParserModel:
                 continue
             t, trace, conds = self.ev.traced(p)
             sets = [self.reject_set(c) for c in conds]
+            # the search forms: chars()..find(pred) / any(pred) / position(pred) deciding Err
+            for c in trace:
+                if c.k == "call" and len(c.a) == 3 and c.a[2].k in ("closure", "fnitem") and c.a[0].rsplit("::", 1)[-1] in ("find", "any", "position") \
+                        and any(y.k == "call" and y.a[0].endswith("<impl str>::chars") for y in subterms(c.a[1])):
+                    try:
+                        body = self.ev.apply(c.a[2], [self.ev.item_of(c.a[1])])
+                    except Exception:
+                        body = None
+                    if body is not None:
+                        sets.append(self.reject_set(body))
             known = [x for x in sets if x is not None]
             if known:
                 rs = []
@@ -318,6 +328,12 @@ class ParserModel:
         for p in tops:
             t, trace, conds = ev.traced(p)
             cands = [x for x in subterms(t) if x.k == "adt"]
+            # values built inside closures handed to iterator adaptors (`into_inner().map(|r| ..).collect()`)
+            for cp in prog.closures_in(p):
+                try:
+                    cands.extend(x for x in subterms(ev.summary(cp)) if x.k == "adt")
+                except Exception:
+                    pass
             for c in trace:
                 for a in c.a[1:]:
                     if isinstance(a, Tm):
@@ -375,9 +391,18 @@ class ParserModel:
                 return self._verbatim(t.a[1], depth + 1)
         return False
 
-    def steps_of(self, t, validators, fn):
+    def steps_of(self, t, validators, fn, depth=0):
         steps = []
         for x in subterms(t):
+            if x.k == "closure" and depth < 3:
+                # what a combinator's closure does to the text / value (opt.map(|x| validate(parse(x))).transpose()?)
+                try:
+                    body = self.ev.apply(x, [Tm("param", (95, "x"))])
+                except Exception:
+                    body = None
+                if body is not None and not (body.k == "call" and body.a[0] == "<apply>"):
+                    steps.extend(self.steps_of(body, validators, fn, depth + 1))
+                continue
             if x.k != "call":
                 continue
             name = x.a[0]
